@@ -21,7 +21,12 @@ pub const K_DE: f64 = 16.0;
 /// single-precision implementation can deviate (rounding of the summed terms AND the effect of
 /// forward rounding errors on the derivative factors), plus 1e-5 of the summed magnitude.
 pub fn grad_tol(d: &D) -> f64 {
-    K_DE * d.de + REL_M * d.m + 1e-30
+    let t = K_DE * d.de + REL_M * d.m + 1e-30;
+    if t.is_nan() {
+        f64::INFINITY
+    } else {
+        t
+    }
 }
 
 pub fn grad_ok(got: f32, d: &D) -> bool {
@@ -557,6 +562,9 @@ fn network_case(rng: &mut Rng, idx: u64, out: &mut Out) {
                 }
             }
             if first.is_none() {
+                if std::env::var("NV_DEBUG").is_ok() {
+                    eprintln!("DEBUG first mismatch: got {:?} d {:?} tol {:e} extra {:e}", got, d, grad_tol(d), extra);
+                }
                 first_kind = Some(cfg.layers[co.0].kind());
                 first = Some(format!("layer {} copy {} parameter {}: derivative of the {} = {:e}, library = {:?} (magnitude {:e})", co.0, co.1, co.2, which, d.d, got, d.m));
             }
@@ -588,7 +596,7 @@ impl Monitor for C01 {
         "C01"
     }
     fn gens(&self, tier: Tier) -> Vec<(&'static str, u64)> {
-        vec![("layers", tier.pick(6480, 160_000)), ("networks", tier.pick(1260, 25_200))]
+        vec![("layers", tier.pick(97_200, 1_555_200)), ("networks", tier.pick(18_900, 302_400))]
     }
     fn rule(&self) -> &'static str {
         "layers: case i -> (kind in conv/deconv/dense/pool, activation, geometry from the covering walk over the 108 (kernel 1..3, stride 1..3, padding 0..3, dilation 1..3) tuples per axis, channels/filters 1..3, extents up to 7, repetition-free weights/inputs/upstream gradient in [-1.5,1.5]); the layer's public backward(u, x, pre) is compared entry by entry with the forward-mode dual-number derivative of <u, post(x; theta)> w.r.t. every input element and every weight/bias/kernel element (|g - d| <= 16 * de + 1e-5 * m: de = first-order bound on the deviation of a correct f32 evaluation incl. the effect of forward rounding on the derivative factors, m = the same derivative on absolute values); the input gradient must have the input's shape. networks: depth 2..5, any mix of dense/conv/deconv/pool that fits, every third with a feedback block (1..3 loops, no skips; gradients compared per unrolled copy), all seven objectives; gradients taken from the hooked Network::backward or (every third case) from the parameter change of one learn() step with plain SGD; oracle = derivative of the objective value for AE/MSE/BCE/KL and for soft-max + cross-entropy, of <objective gradient, output> for MAE/RMSE/CE. Instances within 1e-3 of a ReLU kink / pool tie or with saturated sigmoid (pre > 6) are regenerated. Distinct = distinct configuration descriptors."
